@@ -8,6 +8,21 @@ ALL = [f'C{i:02d}' for i in range(1, 21)]
 
 # property -> (level text, level note, technique, design section)
 CHECKS = {
+    'C12': (
+        'Lean 4 specification of unrolling nested circuit operations (repetitions incl. 0 and negative, qubit maps, key-name maps, repetition '
+        'ids and parent paths as key scopes, binding of classical conditions) with theorems: the scoping pass neither drops, duplicates nor '
+        'reorders operations (C12_scopePass_structure); every measurement key of the unrolled form is the written key prefixed by its scopes '
+        '(C12_scopePass_mkeys); a condition binds to the measurement of the innermost enclosing scope in which the key has been recorded and '
+        'otherwise stays external (C12_bind_innermost, C12_bind_external); zero repetitions unroll to nothing and |repetitions| copies '
+        'otherwise (C12_reps_zero, C12_reps_length); qubit maps compose. T2: generated nestings (depth 0..3) are built as real '
+        'CircuitOperations; unroll_circuit_op(deep=True) must equal the specified flat list (ids, qubits, full keys, bound condition keys, '
+        'inversion and order); key / qubit queries of the wrapped circuit equal those of the unrolled one; its unitary and its exact joint '
+        'record distribution (all simulator branches enumerated) equal those of the specified unrolled circuit run by the Lean interpreter.',
+        'Trusted: Lean kernel; harness + drivers; abstraction of operations to (id, qubits, key, KeyCondition list); parameter maps and '
+        'repeat_until loops are not in the model; KNOWN FINDING unroll:unitary-raises:zero-reps (see known_findings.json).',
+        'Lean 4 proof about the unrolling specification + differential correspondence (structure, unitary, exact distributions)',
+        'DESIGN.md §3 C12',
+    ),
     'C10': (
         'Lean 4 theorems for every sweep built from Points, Linspace, ListSweep, UnitSweep by Product / Zip / ZipLongest / Concat (any nesting): '
         'len equals the number of assignments iteration yields (C10_len_eq_tuples), indexing with any integer incl. negatives equals the '
